@@ -14,6 +14,7 @@ Definition spec_add (wr a b ci : Z) : Z := umod wr (a + b + ci).
 Definition spec_add_co (wr a b ci : Z) : Z := ((a + b + ci) / 2 ^ wr) mod 2.
 Definition spec_sub (wr a b : Z) : Z := umod wr (a - b).
 Definition spec_neg (wr a : Z) : Z := umod wr (- a).
+Definition spec_sub_borrow (wr a b bi : Z) : Z := umod wr (a - b - bi).
 
 (* signed variants: operands are wa / wb-bit two's complement numbers *)
 Definition spec_sadd (wa wb wr a b ci : Z) : Z := umod wr (sgn wa a + sgn wb b + ci).
